@@ -2,11 +2,14 @@
   C12 — abort_on_first changes how much is reported, never what is decided.
   Proved here for every input and every option vector (abort on or off, any waivers): the verdict is
   a function of the severities of the reported results, and a non-conforming verdict always comes
-  with at least one (unwaived) result.  Equality of the abort verdict with the complete-run verdict
-  and the subset relation are checked on the real code by the metamorphic oracle (B); the model-level
-  proof of verdict equality is work in progress (see DESIGN.md §6 C12).
+  with at least one (unwaived) result; and — `abort_same_verdict` — whenever the complete run returns a
+  verdict, the run with abort_on_first returns the same verdict (every waiver combination, focus_nodes /
+  use_shapes selection, nesting depth).  The proof is a refinement: every nested evaluation, constraint
+  component and loop of the early-exit run decides what the complete one decides (`AbortProofs.lean`).
+  The subset relation between the two result lists (up to dropped sh:detail children) is checked on the
+  real code by the metamorphic oracle (B), not proved.
 -/
-import PyshaclProofs.EvalLemmas
+import PyshaclProofs.AbortProofs
 namespace Pyshacl.C12
 open Pyshacl
 
@@ -24,5 +27,27 @@ theorem conforming_iff_all_waived_even_with_abort (o : Opts) (sg dg : Graph) (rx
     conf = allWaived o rs := by
   rw [runValidate_verdict _ sg dg rx focus conf rs h]
   exact allWaived_congr o _ rfl rfl rs
+
+/-- **abort_on_first never changes what is decided** -/
+theorem abort_same_verdict (o : Opts) (h0 : o.abortOnFirst = false) (sg dg : Graph) (rx : Regex)
+    (focus useShapes : List Term) (conf : Bool) (rs : List Result)
+    (h : runValidate o sg dg rx focus useShapes = .ok (conf, rs)) :
+    ∃ rs', runValidate { o with abortOnFirst := true } sg dg rx focus useShapes = .ok (conf, rs') :=
+  runValidate_abort_same_verdict o h0 sg dg rx focus useShapes conf rs h
+
+/-- the same at the level of one shape evaluation, nested or top-level -/
+theorem abort_same_conformance (c : Ctx) (h0 : c.o.abortOnFirst = false) (fuel : Nat) (s : Shape)
+    (focus : Option (List Term)) (path : Option (List PathEntry)) (conf : Bool) (rs : List Result)
+    (h : validateShape c fuel s focus path = .ok (conf, rs)) :
+    ∃ rs', validateShape c.withAbort fuel s focus path = .ok (conf, rs') :=
+  validateShape_refines c h0 fuel s focus path conf rs h
+
+/-! non-vacuity: two failing constraints; the abort run stops after the first, both are non-conforming -/
+def exN (s : String) : Term := .iri ("http://ex.test/" ++ s)
+def sg2 : Graph :=
+  [⟨exN "S", rdfType, shNodeShape⟩, ⟨exN "S", shTargetNode, exN "a"⟩, ⟨exN "S", sh "class", exN "C"⟩,
+   ⟨exN "S", sh "nodeKind", sh "Literal"⟩]
+example : (runValidate {} sg2 [] (fun _ _ _ => none) [] []).toOption.map (fun p => (p.1, p.2.length)) = some (false, 2) := by decide
+example : (runValidate { abortOnFirst := true } sg2 [] (fun _ _ _ => none) [] []).toOption.map (fun p => (p.1, p.2.length)) = some (false, 1) := by decide
 
 end Pyshacl.C12
